@@ -32,6 +32,12 @@ func cliStages() []cliStage {
 		{name: "missing-config", model: "config", args: []string{"--config", "{W}/nocfg.yml"}, spec: cliGood},
 		{name: "malformed-config", model: "config", args: []string{"--config", "{W}/cfg.yml"}, spec: cliGood, cfg: "generator: ["},
 		{name: "unknown-config-field", model: "config", args: []string{"--config", "{W}/cfg.yml"}, spec: cliGood, cfg: "nonsense_field: 1\n"},
+		{name: "config-unknown-feature-enable", model: "config", args: []string{"--config", "{W}/cfg.yml"}, spec: cliGood, cfg: "generator:\n  features:\n    enable:\n      - paths/clinet\n"},
+		{name: "config-unknown-feature-disable", model: "config", args: []string{"--config", "{W}/cfg.yml"}, spec: cliGood, cfg: "generator:\n  features:\n    disable:\n      - nosuch/feature\n"},
+		{name: "config-feature-wrong-type", model: "config", args: []string{"--config", "{W}/cfg.yml"}, spec: cliGood, cfg: "generator:\n  features:\n    enable: 7\n"},
+		{name: "config-bad-convenient-errors", model: "config", args: []string{"--config", "{W}/cfg.yml"}, spec: cliGood, cfg: "generator:\n  convenient_errors: maybe\n"},
+		{name: "config-bad-filter-regex", model: "config", args: []string{"--config", "{W}/cfg.yml"}, spec: cliGood, cfg: "generator:\n  filters:\n    path_regex: \"([\"\n"},
+		{name: "config-bad-depth", model: "config", args: []string{"--config", "{W}/cfg.yml"}, spec: cliGood, cfg: "parser:\n  depth_limit: many\n"},
 		{name: "missing-spec", model: "specRead"},
 		{name: "malformed-yaml", model: "yamlParse", spec: `{"openapi": "3.0.3", "info": {`},
 		{name: "invalid-version", model: "specValidate", spec: rep("3.0.3", "9.9")},
@@ -70,7 +76,7 @@ func snapshot(dir string) map[string]snapEntry {
 	return out
 }
 
-var cliUserFiles = []string{"oas_x.go", "myoas_gen.go", "openapi_gen.go.bak", "user.go", "oas_user_gen.go", "openapi_extra_gen_test.go", "OAS_upper_gen.go", "oas_gen.go.txt", "oas_gen.go", "xoas_a_gen.go", "openapi_gen_test.go"}
+var cliUserFiles = []string{"oas_x.go", "myoas_gen.go", "openapi_gen.go.bak", "user.go", "oas_user_gen.go", "openapi_extra_gen_test.go", "OAS_upper_gen.go", "oas_gen.go.txt", "oas_gen.go", "xoas_a_gen.go", "openapi_gen_test.go", "openapi_generate.go", "oas_generic_helpers.go", "oas_gen_overrides.go", "oas_a_gen_b.go", "oas_gen.gox", "oas_x_gen_test.go.go", "openapi_gen", "oas_gen_test.go.orig", "oas_.go", "oas_a_GEN.go"}
 
 func c20(r *lp.Run) {
 	r.SetRule("the cmd/ogen binary built from /repo, run with --clean (and without) for every pre-write failure stage (bad flag; missing, malformed, unknown-field config; missing spec; malformed YAML; invalid version; spec validation; not-implemented feature; dangling $ref; duplicate operationId; routing conflict) and for success, crossed with every target state (absent, empty, previous generation, previous generation + look-alike user files + directories named like generated files + nested directories, the same read-only); recursive snapshot (names, modes, hashes) before and after, exit code; top-level outcome compared with the Lean stage machine. non-trivial = distinct (stage, state, clean) with a non-empty target")
